@@ -119,6 +119,7 @@ fn replay(args: &[String]) -> i32 {
     let input = open_in(args);
     let mut out = open_out(args);
     let max_samples = opt_usize(args, "--samples", 6);
+    set_spell(opt_usize(args, "--spell", 0));
     // after this many failures the rest of the input is not replayed (a broken
     // parser can make every failing case expensive)
     let max_bad = opt_usize(args, "--max-bad", 100);
@@ -166,7 +167,7 @@ fn replay(args: &[String]) -> i32 {
             }
         } else {
             n_bad += 1;
-            let rec = json!({"class": class, "tb": table_json(tb), "line": line,
+            let rec = json!({"class": class, "spell": spell_now(), "tb": table_json(tb), "line": line,
                 "allowed": allowed.iter().map(|a| a.iter().map(|t| t.to_json()).collect::<Vec<_>>()).collect::<Vec<_>>(),
                 "detail": detail});
             writeln!(out, "{rec}").unwrap();
@@ -221,11 +222,12 @@ fn replay(args: &[String]) -> i32 {
 }
 
 /// One record of the implementation -> spec direction.
-fn observation(id: usize, tb: &Table, line: &[String]) -> Value {
+fn observation(id: usize, spell: usize, tb: &Table, line: &[String]) -> Value {
+    set_spell(spell);
     let text = render_line(line);
     let obs = parse::parse_with(&text, Some(tb));
     let words: Vec<Value> = obs.words.iter().map(|(t, o)| json!({"t": unrender_tok(t), "o": o})).collect();
-    json!({"id": id, "tb": table_json(tb), "line": line, "st": obs.status,
+    json!({"id": id, "spell": spell_now(), "text": text, "tb": table_json(tb), "line": line, "st": obs.status,
         "wordsok": obs.status == "ok" && !obs.unsupported,
         "words": words, "printed": obs.printed, "err": obs.err, "lookups": obs.lookups})
 }
@@ -237,7 +239,7 @@ fn random(args: &[String]) -> i32 {
     let mut abnormal = 0;
     for id in 1..=n {
         let (tb, line) = g.case();
-        let o = observation(id, &tb, &line);
+        let o = observation(id, id % SPELLINGS, &tb, &line);
         if o["st"] == "hang" || o["st"] == "panic" {
             abnormal += 1;
         }
@@ -262,7 +264,8 @@ fn observe(args: &[String]) -> i32 {
         }
         let v: Value = serde_json::from_str(&l).expect("json");
         id += 1;
-        writeln!(out, "{}", observation(id, &table_from_json(&v["tb"]), &strs(&v["line"]))).unwrap();
+        let sp = v["spell"].as_u64().unwrap_or(0) as usize;
+        writeln!(out, "{}", observation(id, sp, &table_from_json(&v["tb"]), &strs(&v["line"]))).unwrap();
     }
     out.flush().unwrap();
     0
@@ -301,6 +304,7 @@ fn judge(args: &[String]) -> i32 {
             n_unspec += 1;
             continue;
         }
+        set_spell(r["spell"].as_u64().unwrap_or(0) as usize);
         let mut ok = false;
         let mut drift = false;
         let mut hands = Vec::new();
@@ -344,7 +348,7 @@ fn judge(args: &[String]) -> i32 {
         } else {
             n_bad += 1;
             writeln!(out, "{}", json!({"class": if r["st"] == "hang" {"hang"} else if r["st"] == "panic" {"panic"} else {"mismatch"},
-                "tb": r["tb"], "line": r["line"], "rec": r, "hand": hands})).unwrap();
+                "spell": r["spell"], "tb": r["tb"], "line": r["line"], "rec": r, "hand": hands})).unwrap();
         }
     }
     out.flush().unwrap();
@@ -360,6 +364,7 @@ fn one() -> i32 {
     let v: Value = serde_json::from_str(&s).expect("json");
     let tb = table_from_json(&v["tb"]);
     let line = strs(&v["line"]);
+    set_spell(v["spell"].as_u64().unwrap_or(0) as usize);
     let text = render_line(&line);
     let obs = parse::parse_with(&text, Some(&tb));
     println!("{}", json!({"text": text, "obs": obs.to_json()}));
